@@ -50,6 +50,7 @@ def Entry.producesDirection (classes : List ClassInfo) (e : Entry) : Bool :=
   | .ctor | .method | .static | .castCtor =>
     (match e.ret with | .q c => classIsDirection classes c | _ => false)
   | .mutator => classIsDirection classes e.cls && e.mem == .other && e.opr == .named
+  | .castAssign => classIsDirection classes e.cls
   | _ => false
 
 /-- C10: every construction path of a direction normalises (or copies an existing direction / is
